@@ -220,20 +220,78 @@ func (c *Ctx) unreachableOnFailedCheck(g *paths.Graph, key, what string, target 
 	}
 }
 
-func cmpOfCalls(iff *ssa.If, m func(*ssa.Call) bool) (neEdge int, ok bool) {
-	bo, isB := iff.Cond.(*ssa.BinOp)
-	if !isB || (bo.Op.String() != "!=" && bo.Op.String() != "==") {
-		return 0, false
+// unreachableWhenUnequal: target is unreachable whenever the two quantities selected by m
+// differ. The two orderings a < b and a > b are taken one at a time; under each, every
+// branch that compares the two quantities (==, !=, <, <=, >, >=, either way round) has a
+// known outcome and only that edge is followed.
+func (c *Ctx) unreachableWhenUnequal(g *paths.Graph, key, what string, target func(paths.Node) bool, m func(*ssa.Call) bool, pos string) {
+	ids := map[ssa.Value]int{}
+	idOf := func(call *ssa.Call) int {
+		var q ssa.Value
+		if call.Common().IsInvoke() {
+			q = ir.SeeThrough(call.Common().Value)
+		} else if len(call.Common().Args) == 0 {
+			q = call
+		} else {
+			q = ir.SeeThrough(call.Common().Args[0])
+		}
+		if _, ok := ids[q]; !ok {
+			ids[q] = len(ids) + 1
+		}
+		return ids[q]
 	}
-	cx, ok1 := bo.X.(*ssa.Call)
-	cy, ok2 := bo.Y.(*ssa.Call)
-	if !ok1 || !ok2 || !m(cx) || !m(cy) {
-		return 0, false
+	found := false
+	var hit []paths.Node
+	old := g.PruneEdge
+	for _, less := range []bool{true, false} {
+		g.PruneEdge = func(f *paths.Frame, iff *ssa.If, idx int) bool {
+			bo, ok := iff.Cond.(*ssa.BinOp)
+			if !ok {
+				return false
+			}
+			cx, ok1 := bo.X.(*ssa.Call)
+			cy, ok2 := bo.Y.(*ssa.Call)
+			if !ok1 || !ok2 || !m(cx) || !m(cy) {
+				return false
+			}
+			ix, iy := idOf(cx), idOf(cy)
+			if ix == iy {
+				return false
+			}
+			xLess := less == (ix < iy) // the scenario, seen from this comparison's operand order
+			var val bool
+			switch bo.Op.String() {
+			case "==":
+				val = false
+			case "!=":
+				val = true
+			case "<", "<=":
+				val = xLess
+			case ">", ">=":
+				val = !xLess
+			default:
+				return false
+			}
+			found = true
+			if val {
+				return idx != 0
+			}
+			return idx != 1
+		}
+		if p := g.FindPath([]paths.Node{g.Entry()}, nil, target); p != nil && hit == nil {
+			hit = p
+		}
 	}
-	if bo.Op.String() == "!=" {
-		return 0, true
+	g.PruneEdge = old
+	if !found {
+		c.R.Bad(ruleP8, key, pos, "the check '"+what+"' is missing")
+		return
 	}
-	return 1, true
+	if hit != nil {
+		c.R.Bad(ruleP8, key, pos, "the callback is entered into (or removed from) the local tree although the check '"+what+"' failed", c.witness(g, hit)...)
+	} else {
+		c.R.Ok(ruleP8, key, pos, "unreachable when '"+what+"' fails")
+	}
 }
 
 func (c *Ctx) clientSubscribeClosure() {
@@ -283,8 +341,8 @@ func (c *Ctx) clientSubscribeClosure() {
 		}
 		return 0, false
 	}, pos)
-	c.unreachableOnFailedCheck(g, "client-subscribe:only-if-ids-match", "sub.PacketID() == suback.PacketID()", treeSub, func(iff *ssa.If) (int, bool) { return cmpOfCalls(iff, isPktID) }, pos)
-	c.unreachableOnFailedCheck(g, "client-subscribe:only-if-one-code-per-filter", "len(topics) == len(retcodes)", treeSub, func(iff *ssa.If) (int, bool) { return cmpOfCalls(iff, isLen) }, pos)
+	c.unreachableWhenUnequal(g, "client-subscribe:only-if-ids-match", "sub.PacketID() == suback.PacketID()", treeSub, isPktID, pos)
+	c.unreachableWhenUnequal(g, "client-subscribe:only-if-one-code-per-filter", "len(topics) == len(retcodes)", treeSub, isLen, pos)
 	// per filter: registered iff its return code is not 0x80
 	l := loopOver(cl, func(call *ssa.Call) bool { return ir.IsMethod(call.Common(), pkgMessage, "SubscribeMessage", "Topics") })
 	if l == nil {
@@ -429,7 +487,7 @@ func (c *Ctx) clientUnsubscribeClosure() {
 		}
 		return 0, false
 	}, pos)
-	c.unreachableOnFailedCheck(g, "client-unsubscribe:only-if-ids-match", "unsub.PacketID() == unsuback.PacketID()", treeUn, func(iff *ssa.If) (int, bool) { return cmpOfCalls(iff, isPktID) }, pos)
+	c.unreachableWhenUnequal(g, "client-unsubscribe:only-if-ids-match", "unsub.PacketID() == unsuback.PacketID()", treeUn, isPktID, pos)
 }
 
 // framingReadsWholePacket: the handshake framing reader returns only complete packets.
